@@ -1,18 +1,21 @@
 // Unit cmp: the equality / ordering state machine of the evaluator.  Extracted verbatim from
 // Evaluator::run (program/eval/mod.rs): the arms EqualsValue, EqualsArray, EqualsObject,
 // CompareValue, CompareArray, CmpOrdToBoolValueIs{Lt,Le,Gt,Ge}, CmpOrdToIntValueThreeWay, InvertBool,
-// BoolToValue, plus push_trace_item / inc_trace_len; EvalErrorValueType (error.rs); and the real
-// object representation (ObjectData & co. from data.rs, as in unit objlayers).
+// BoolToValue, plus push_trace_item / inc_trace_len; EvalErrorValueType (error.rs).
 // Hand-written environment: Gc / GcView (raw pointers, nothing freed), an ABSTRACT array (a length
 // and an identity; element i is a thunk labelled (array, i)), a State enum with only the variants
-// these arms construct, an Evaluator with only the stacks they touch.
+// these arms construct, an Evaluator with only the stacks they touch, and an ABSTRACT object: the
+// ASSUMED CONTRACT of ObjectData's query functions (get_fields_order = the existing fields with their
+// effective visibility in name order; get_visible_fields_order = those not hidden; has_field /
+// has_visible_field = membership).  That contract is what unit `objlayers` checks on the real
+// data.rs; the real functions are not executed here because get_fields_order's BTreeMap made every
+// harness of this unit exceed 15 min, including the ones that never touch an object (measured).
 #![allow(dead_code, unused)]
 mod u {
 use std::cell::{Cell, OnceCell, RefCell};
 use std::collections::BTreeMap;
 use std::marker::PhantomData;
 use std::rc::Rc;
-//@include shim/vecmap.rs
 pub type SpanId = u32;
 #[derive(Clone, Copy, PartialEq, Eq, PartialOrd, Ord, Debug)]
 pub struct InternedStr<'p>(pub u8, pub PhantomData<&'p ()>);
@@ -56,15 +59,27 @@ pub enum State<'a, 'p> {
     CompareArray { lhs: GcView<ArrayData<'p>>, rhs: GcView<ArrayData<'p>>, index: usize },
     AssertsOf(u8, PhantomData<&'a ()>),
 }
+/// abstract object (assumed contract of ObjectData, see header): its existing fields in name order with
+/// their effective visibility; `id` identifies it in thunk labels
+pub struct ObjectData<'p> { pub id: u8, pub fields: Vec<(InternedStr<'p>, ast::Visibility)> }
+impl<'p> ObjectData<'p> {
+    pub fn get_fields_order(&self) -> &[(InternedStr<'p>, ast::Visibility)] { &self.fields }
+    pub fn get_visible_fields_order(&self) -> impl DoubleEndedIterator<Item = InternedStr<'p>> + Clone + '_ {
+        self.fields.iter().filter_map(|&(name, visibility)| (visibility != ast::Visibility::Hidden).then_some(name))
+    }
+    pub fn has_field(&self, layer_i: usize, name: InternedStr<'p>) -> bool { layer_i == 0 && self.fields.iter().any(|f| f.0 == name) }
+    pub fn has_visible_field(&self, name: InternedStr<'p>) -> bool { self.fields.iter().any(|f| f.0 == name && f.1 != ast::Visibility::Hidden) }
+}
 pub struct Program<'p>(pub PhantomData<&'p ()>);
 impl<'p> Program<'p> {
     // shim: the real one creates / caches the field's thunk; here the thunk is labelled (object id, field name)
+    // and the lookup is recorded, so that a lookup of a field that does not exist / of a hidden field is visible
     pub fn find_object_field_thunk(&self, object: &GcView<ObjectData<'p>>, layer_i: usize, name: InternedStr<'p>) -> Option<GcView<ThunkData<'p>>> {
-        let (_, _f) = object.find_field(layer_i, name)?;
+        if !object.has_field(layer_i, name) { return None; }
         Some(Gc::new(ThunkData { src: 100 + obj_id(object), idx: name.0 as usize, _p: PhantomData }).view())
     }
 }
-pub fn obj_id(o: &ObjectData<'_>) -> u8 { if o.asserts_checked.get() { 1 } else { 0 } }
+pub fn obj_id(o: &ObjectData<'_>) -> u8 { o.id }
 pub struct Evaluator<'a, 'p> {
     program: &'a mut Program<'p>,
     stack_trace_len: usize,
@@ -82,11 +97,6 @@ impl<'a, 'p> Evaluator<'a, 'p> {
 // ---- extracted, verbatim -------------------------------------------------------------------
 //@extract file=rsjsonnet-lang/src/program/error.rs item=enum:EvalErrorValueType
 //@extract file=rsjsonnet-lang/src/program/error.rs impl=EvalErrorValueType methods=from_value
-//@extract file=rsjsonnet-lang/src/program/data.rs item=struct:ObjectData
-//@extract file=rsjsonnet-lang/src/program/data.rs impl=ObjectData methods=get_layer,find_field,has_field,get_fields_order,get_visible_fields_order,has_visible_field
-//@extract file=rsjsonnet-lang/src/program/data.rs item=struct:ObjectLayer
-//@extract file=rsjsonnet-lang/src/program/data.rs item=enum:ObjectField
-//@extract file=rsjsonnet-lang/src/program/data.rs item=struct:ObjectFieldData
 //@extract file=rsjsonnet-lang/src/program/eval/mod.rs impl=Evaluator methods=push_trace_item,inc_trace_len
 
 impl<'a, 'p> Evaluator<'a, 'p> {
@@ -133,7 +143,7 @@ mod vharness {
     use std::cmp::Ordering;
 
     fn ev<'a>(p: &'a mut Program<'static>) -> Evaluator<'a, 'static> {
-        Evaluator { program: p, stack_trace_len: 0, state_stack: Vec::new(), value_stack: Vec::new(), bool_stack: Vec::new(), cmp_ord_stack: Vec::new() }
+        Evaluator { program: p, stack_trace_len: 0, state_stack: Vec::with_capacity(8), value_stack: Vec::with_capacity(4), bool_stack: Vec::with_capacity(4), cmp_ord_stack: Vec::with_capacity(4) }
     }
     fn finite() -> f64 { let x: f64 = kani::any(); kani::assume(x.is_finite()); x }
     const STRS: [&str; 4] = ["", "a", "ab", "b"];
@@ -353,41 +363,78 @@ mod vharness {
         core::mem::forget(e);
     }
 
-    // ---- objects: real ObjectData --------------------------------------------------------------
+    // ---- objects: abstract object (contract of ObjectData's queries, see header) ---------------------
     use super::ast::Visibility as V;
-    const NA: InternedStr<'static> = InternedStr(1, PhantomData);
-    const NB: InternedStr<'static> = InternedStr(2, PhantomData);
-    fn any_field() -> Option<V> { let k: u8 = kani::any(); match k % 4 { 0 => None, 1 => Some(V::Default), 2 => Some(V::Hidden), _ => Some(V::ForceVisible) } }
-    /// a one-layer object {a, b} with the given visibilities; id is carried in asserts_checked (0: false, 1: true)
-    fn object(id: u8, a: Option<V>, b: Option<V>) -> Gc<ObjectData<'static>> {
-        let mut fields: FHashMap<InternedStr<'static>, ObjectField<'static>> = FHashMap::default();
-        if let Some(v) = a { fields.insert(NA, ObjectField::Normal(ObjectFieldData { base_env: None, visibility: v, expr: None, thunk: OnceCell::new() })); }
-        if let Some(v) = b { fields.insert(NB, ObjectField::Normal(ObjectFieldData { base_env: None, visibility: v, expr: None, thunk: OnceCell::new() })); }
-        Gc::new(ObjectData { self_layer: ObjectLayer { is_top: false, locals: &[], base_env: None, env: OnceCell::new(), fields, asserts: &[] },
-                             super_layers: Vec::new(), fields_order: OnceCell::new(), asserts_checked: Cell::new(id == 1) })
+    const NAMES: [InternedStr<'static>; 3] = [InternedStr(1, PhantomData), InternedStr(2, PhantomData), InternedStr(3, PhantomData)];
+    fn any_field() -> Option<V> { let k: u8 = kani::any(); kani::assume(k < 4); match k { 0 => None, 1 => Some(V::Default), 2 => Some(V::Hidden), _ => Some(V::ForceVisible) } }
+    /// an object over the names {a, b, c} (ids 1, 2, 3), each absent or present with a visibility
+    fn object(id: u8, f: &[Option<V>; 3]) -> Gc<ObjectData<'static>> {
+        let mut fields = Vec::with_capacity(3);
+        let mut i = 0; while i < 3 { if let Some(v) = f[i] { fields.push((NAMES[i], v)); } i += 1; }
+        Gc::new(ObjectData { id, fields })
     }
     fn vis(f: Option<V>) -> bool { matches!(f, Some(V::Default) | Some(V::ForceVisible)) }
 
-    //@harness props=C08,C01 strength=bounded bound="two one-layer objects over the field names {a, b}, every combination of absent / : / :: / ::: on each side" clause="equality of two objects (entry): false exactly when their sets of VISIBLE field names differ (hidden fields never take part, are never looked up or evaluated); both without visible fields => true; otherwise the first visible field (in name order) of both is evaluated and compared next, with the remaining visible names queued in order" timeout=1800
+    //@harness props=C08,C01,C10 strength=proof clause="equality of two objects (entry), objects over three field names, every combination of absent / : / :: / ::: on each side (the names stand for any three names; the arm treats names uniformly): false exactly when their sets of VISIBLE field names differ - hidden fields never take part and are never looked up; both without visible fields => true; otherwise the first visible field (in name order) of BOTH objects is evaluated and compared next, the remaining visible names are queued in order, the assertions of both objects are scheduled, one trace item is counted" timeout=900 replay=cmp_objects
     #[kani::proof]
     #[kani::unwind(8)]
     fn equals_object_entry_contract() {
-        let (la, lb, ra, rb) = (any_field(), any_field(), any_field(), any_field());
+        let l = [any_field(), any_field(), any_field()];
+        let r = [any_field(), any_field(), any_field()];
         let mut prog = Program(PhantomData);
         let mut e = ev(&mut prog);
-        e.value_stack.push(ValueData::Object(object(0, la, lb))); e.value_stack.push(ValueData::Object(object(1, ra, rb)));
-        let r = e.arm_equals_value();
-        assert!(r.is_ok() && e.value_stack.is_empty() && e.cmp_ord_stack.is_empty(), "C08,C01:cmp:equals-stack-effect");
-        let same_visible = vis(la) == vis(ra) && vis(lb) == vis(rb);
+        e.value_stack.push(ValueData::Object(object(0, &l))); e.value_stack.push(ValueData::Object(object(1, &r)));
+        let res = e.arm_equals_value();
+        assert!(res.is_ok() && e.value_stack.is_empty() && e.cmp_ord_stack.is_empty(), "C08,C01:cmp:equals-stack-effect");
+        let same_visible = vis(l[0]) == vis(r[0]) && vis(l[1]) == vis(r[1]) && vis(l[2]) == vis(r[2]);
+        let nvis = vis(l[0]) as usize + vis(l[1]) as usize + vis(l[2]) as usize;
         if !same_visible {
             assert!(e.bool_stack.len() == 1 && !e.bool_stack[0] && e.state_stack.is_empty(), "C08:cmp:objects-with-different-visible-fields-are-not-equal");
-        } else if !vis(la) && !vis(lb) {
+        } else if nvis == 0 {
             assert!(e.bool_stack.len() == 1 && e.bool_stack[0] && e.state_stack.is_empty(), "C08:cmp:objects-without-visible-fields-are-equal");
         } else {
-            let first = if vis(la) { 1usize } else { 2usize };
+            let first = if vis(l[0]) { 1usize } else if vis(l[1]) { 2 } else { 3 };
             assert!(e.bool_stack.is_empty() && e.state_stack.len() == 7, "C08:cmp:first-visible-field-is-compared-next");
-            assert!(matches!(&e.state_stack[0], State::EqualsObject { rem_fields, .. } if (vis(la) && vis(lb)) == (rem_fields.len() == 1) && (rem_fields.len() <= 1) && (rem_fields.is_empty() || rem_fields[0] == NB)), "C08:cmp:remaining-visible-fields-are-queued-in-order");
+            // remaining visible names, queued so that pop() yields them in name order
+            let ok_queue = match &e.state_stack[0] {
+                State::EqualsObject { lhs, rhs, rem_fields } => {
+                    let mut want: Vec<u8> = Vec::with_capacity(3);
+                    let mut i = 3; while i > first { if vis(l[i - 1]) { want.push(i as u8); } i -= 1; }
+                    lhs.id == 0 && rhs.id == 1 && rem_fields.len() == want.len() && { let mut ok = true; let mut j = 0; while j < want.len() { ok = ok && rem_fields[j].0 == want[j]; j += 1; } ok }
+                }
+                _ => false,
+            };
+            assert!(ok_queue, "C08:cmp:remaining-visible-fields-are-queued-in-order");
+            assert!(matches!(&e.state_stack[1], State::TraceItem(TraceItem::CompareObjectField { name }) if name.0 as usize == first) && e.stack_trace_len == 1, "C10:cmp:trace-item-is-counted");
             assert!(matches!(e.state_stack[2], State::EqualsValue) && is_do_thunk(&e.state_stack[3], 101, first) && is_do_thunk(&e.state_stack[4], 100, first), "C08:cmp:first-visible-field-is-compared-next");
+            assert!(matches!(e.state_stack[5], State::AssertsOf(1, _)) && matches!(e.state_stack[6], State::AssertsOf(0, _)), "C08:cmp:object-assertions-are-checked-before-fields-are-compared");
+        }
+        core::mem::forget(e);
+    }
+
+    //@harness props=C08,C01,C10 strength=proof clause="equality of two objects (step, ANY queue of up to three remaining visible names that exist in both objects): an empty queue leaves the last field's result as the answer; a false field result decides false and schedules nothing (later fields are never evaluated); a true result schedules exactly the comparison of the next queued field of both objects, with one trace item counted - by induction the result is 'all visible fields equal'" timeout=900 replay=cmp_objects
+    #[kani::proof]
+    #[kani::unwind(8)]
+    fn equals_object_step_contract() {
+        let all = [Some(V::Default), Some(V::Default), Some(V::Default)];
+        let (lo, ro) = (object(0, &all), object(1, &all));
+        let nq: usize = kani::any(); kani::assume(nq <= 3);
+        let mut q: Vec<InternedStr<'static>> = Vec::with_capacity(3);
+        let mut i = 0; while i < nq { let k: usize = kani::any(); kani::assume(k < 3); q.push(NAMES[k]); i += 1; }
+        let last = if nq > 0 { q[nq - 1].0 as usize } else { 0 };
+        let (below, item): (bool, bool) = (kani::any(), kani::any());
+        let mut prog = Program(PhantomData);
+        let mut e = ev(&mut prog);
+        e.bool_stack.push(below); e.bool_stack.push(item);
+        e.arm_equals_object(lo.view(), ro.view(), q);
+        assert!(e.value_stack.is_empty() && e.cmp_ord_stack.is_empty() && e.bool_stack[0] == below, "C08,C01:cmp:equals-stack-effect");
+        if nq == 0 || !item {
+            assert!(e.state_stack.is_empty() && e.bool_stack.len() == 2 && e.bool_stack[1] == item, "C08:cmp:field-result-is-final-when-false-or-last");
+        } else {
+            assert!(e.bool_stack.len() == 1 && e.state_stack.len() == 5, "C08:cmp:next-field-is-compared-next");
+            assert!(matches!(&e.state_stack[0], State::EqualsObject { lhs, rhs, rem_fields } if lhs.id == 0 && rhs.id == 1 && rem_fields.len() == nq - 1), "C08:cmp:next-field-is-compared-next");
+            assert!(matches!(&e.state_stack[1], State::TraceItem(TraceItem::CompareObjectField { name }) if name.0 as usize == last) && e.stack_trace_len == 1, "C10:cmp:trace-item-is-counted");
+            assert!(matches!(e.state_stack[2], State::EqualsValue) && is_do_thunk(&e.state_stack[3], 101, last) && is_do_thunk(&e.state_stack[4], 100, last), "C08:cmp:next-field-is-compared-next");
         }
         core::mem::forget(e);
     }
